@@ -336,7 +336,7 @@ def run_sound_case(case):
             ib_agrees = key(pos2) == key(positions) and td_key_counts(ab2) == td_key_counts(ab)
         for q in positions:
             q["defnone"] = q["pos"] == "b"          # the only parameters of the target module with a None default
-        rec = {"tid": case["tid"], "ev": "Sound", "k": case["k"], "tight": case["k"] == 0 and case["rw"] == "NONE" and not case["flag"],
+        rec = {"tid": case["tid"], "ev": "Sound", "k": case["k"], "tight": case["rw"] == "NONE" and not case["flag"],
                "positions": positions, "tds": td_key_counts(ab), "ib_agrees": ib_agrees,
                "stored": stored_encodings(db), "obs": [], "tdobs": [], "stub": out.getvalue()[:1200],
                "unres_sig": ab.get("unres_sig", []), "unres_td": ab.get("unres_td", []), "dup_td": ab.get("dup_td", False)}
@@ -717,7 +717,7 @@ def run_pipeline(pid, tier, seed, run, replay_case=None):
         if pid == "C06":   # the k > 0 part of the enumeration is what matters here
             cases = [c for c in cases if c["k"] > 0 or c["tid"] % 4 == 0]
         if pid == "C05":   # tightness is stated for the inferred type before any rewriter runs
-            cases = [c for c in cases if c["k"] == 0 and c["rw"] == "NONE" and not c["flag"]]
+            cases = [c for c in cases if c["rw"] == "NONE" and not c["flag"]]
         if pid == "C01":
             devs = core.model_deviations(["Dev_RECAnyNeighbour", "Dev_RLUEmptyTupleFirst", "Dev_RLUFirstMro", "Dev_MSCBGeneric"])
             cfg = ("SPECIFICATION PSpec\nCONSTANTS\n  Ks = {0, 2}\n  MaxCalls = %d\n  Chains <- ChainsMC\n" % (2 if tier == "quick" else 3)
@@ -746,7 +746,7 @@ def run_pipeline(pid, tier, seed, run, replay_case=None):
                 continue
             if clause not in mine:
                 continue
-            if pid == "C01":
+            if pid in ("C01", "C05"):
                 for cause in causes_of(rec):
                     run.violation({"clause": clause, "cause": cause}, {k: case[k] for k in case if k != "tid"})
                 continue
